@@ -254,11 +254,19 @@ fn nontrivial(s: &Schema, text: &str) -> bool {
 
 pub fn run(ctx: &Ctx) {
   ctx.set_rule(
-    "positive: documents rendered from random derivations of the RFC 8610/9682 grammar (own model + printer, \
-     random trivia) must be accepted and the AST skeleton must equal the skeleton of the derivation (rule order, \
-     names, sockets, kind, assignment operator, generic parameters, nesting of choices/groups/occurrences/member \
-     keys/operators, literal values). Non-trivial: >= 2 rules or >= 2 bracketed constructs; distinct texts.",
+    "oracle: an Earley recognizer over the ABNF text of RFC 8610 Appendix B as updated by RFC 9682 (vcore/src/cddl_abnf.rs), \
+     extended by the leniencies the crate's grammar file documents (tab, final comment without line break, h\"..\", #(type)) \
+     and with control names limited to the registered ones; two readings: plain context-free derivability, and derivability \
+     with identifiers / numbers never split (longest match). positive: documents rendered from random derivations (own model \
+     and printer, random blanks / tabs / CRLF / comments) are derivable under the strict reading by construction (self-check \
+     of generator and oracle), must be accepted, and the AST skeleton must equal the skeleton of the derivation (rule order, \
+     names, sockets, kind, assignment operator, generic parameters, nesting of choices / groups / occurrences / member keys / \
+     operators, literal values). agreement: 1-2 character edits of such documents and strings of 1-9 tokens of the CDDL \
+     alphabet - whatever the parser accepts must be derivable (plain reading, plus the relaxations that stand for open \
+     findings); derivable-but-rejected is only counted there (semantic rejections and ordered-choice artefacts). \
+     Non-trivial: >= 2 rules or >= 2 bracketed constructs (positive), every distinct text (agreement).",
   );
+
   let n = ctx.tier.pick(150_000, 4_000_000);
   let opts = syn_opts(ctx);
   search(ctx, "positive", n, 220, |t: &mut Tape, st: &mut Stats| {
